@@ -293,3 +293,18 @@ native("authenticated-delivery-with-real-keys", "natives/c01_auth.py",
                   "ipv8/lazy_community.py::EZPackOverlay._verify_signature", "ipv8/community.py::Community.on_packet",
                   "ipv8/keyvault/crypto.py::ECCrypto.is_valid_signature"],
        note="only datagrams signed by the key they name reach a handler, and the handler gets that key's peer")
+
+# replay into another overlay: a datagram reaches an overlay's handlers only behind the comparison of its first 22 bytes with THAT overlay's
+# prefix (the signature covers the prefix, but it is the receiver that has to insist on its own) - same obligation as C03's prefix gate
+from contracts.common import TASK_STUBS  # noqa: E402
+
+contract(f"{COM}::Community.on_packet", "on_packet.own-prefix-only",
+         vars={"self": OBJ(f"{COM}::Community", network=OBJ(f"{NET}::Network"), _prefix=BYTES_N(22),
+                           decode_map=ANYLIST(256, OPT(CALLABLE("handler", returns=ANY, raises=("Exception",)))), logger=LOGGER()),
+               "source": ADDRESS, "data": BYTES},
+         call="self.on_packet((source, data))", raises=[],
+         on_effect={"handler": ["len(data) >= 23 and data[:22] == self._prefix", "args[1] == data and args[0] == source"]},
+         stubs={**TASK_STUBS, f"{NET}::Network.get_verified_by_address": {"returns": OPT(OBJ("ipv8/peer.py::Peer", last_response=REAL)),
+                                                                        "note": "total; own contract in C12"}},
+         covers=["len(calls('handler')) == 1", "len(calls('handler')) == 0"],
+         note="a correctly signed datagram of another overlay (other prefix) never enters this overlay's handlers")
